@@ -75,6 +75,12 @@ func hiddenKey(sc *gen.TScenario) string {
 	if sc.Via == "method" {
 		return "hidden-flow:struct-receiver"
 	}
+	if sc.Via == "srchelper" {
+		return "hidden-flow:source-in-helper"
+	}
+	if sc.Transport == "copy" && sc.Via == "inline" {
+		return "hidden-flow:builtin-call-is-the-only-shared-access"
+	}
 	if sc.Transport == "captured" && (sc.Via == "callee" || sc.Via == "method") {
 		return "hidden-flow:global-pointer-in-callsite-context"
 	}
@@ -209,9 +215,7 @@ func main() {
 	}
 	// fixed corpus: replay programs of the known findings (scenario 0 of each)
 	for _, kf := range lib.KnownFindings("C13") {
-		if kf.Status != "open" {
-			continue
-		}
+		// fixed findings stay in the corpus as regression inputs (a failure on them is a VIOLATION)
 		b, err := os.ReadFile(filepath.Join(lib.Root(), kf.Replay))
 		if err != nil {
 			rep.Notes = append(rep.Notes, "cannot read replay of "+kf.ID+": "+err.Error())
